@@ -238,6 +238,11 @@ def exact_rule(facts, rep, rule="C09-EXACT"):
                           "bare read() inside a stream adapter / the drain loop (which loops until Ok(0))",
                           "parser code calls Read::read directly: a short read silently truncates the structure "
                           "(use read_exact / byteorder)")
+            elif t.get("callee") in ("std::io::Write::write_vectored", "std::io::Read::read_vectored"):
+                okall = False
+                rep.violation(rule, "bare-vectored:%s" % f.path, where(f, t["span"]),
+                              "%s may transfer only part of the slices (std's default forwards the FIRST non-empty one): a count that is not checked in a loop "
+                              "drops the rest" % t["callee"].split("::")[-1])
             elif t.get("callee") == "std::io::Write::write":
                 nw += 1
                 good = is_adapter
